@@ -35,6 +35,9 @@ func main() {
 		child(os.Args[2], os.Args[3], os.Args[4])
 	case "replay":
 		os.Exit(replay(os.Args[2], true))
+	case "c04forged":
+		limitMemory()
+		checks.C04ForgedMain(os.Args[2], os.Args[3])
 	case "deepnest":
 		ext := os.Args[2] == "true"
 		levels, _ := strconv.Atoi(os.Args[3])
